@@ -477,6 +477,8 @@ class C07Structure(Monitor):
                     if d._sprout_seed is None:
                         self.v("non-root deme without sprout seed", deme=d.id)
         self.nt(tuple(sorted(shape)))
+        if len(ids) >= 12:
+            self.cov("tree_with_12_or_more_demes")
         if len(levels) >= 3:
             sprouted_l1 = sum(1 for d in levels[1] if d.children)
             if sprouted_l1 >= 2:
